@@ -299,6 +299,13 @@ pub fn pool(store: &AnnotationStore, rng: &mut Rng) -> Pool {
             }
         }
     }
+    // the text of known selections (so that a TEXT filter has something to keep), short ones
+    for t in store.annotations().textselections().take(12) {
+        let text = t.text();
+        if !text.is_empty() && text.chars().count() <= 6 {
+            p.texts.push(text.to_string());
+        }
+    }
     p.texts.push("zzz".into());
     p
 }
